@@ -393,7 +393,6 @@ def prefix_script(st):
     if st["dec"]:
         ev.append(("dec", b"\x03", False))
     e = st["enc"]
-    blocked_first = st["req"].endswith(".blocked")
     if e != "none":
         ev.append(("enc", b"\x02", False))
     if e == "ins":
@@ -414,8 +413,8 @@ def prefix_script(st):
             rq.append(("req", frame(0, b"ab", length=5), False))
         elif p == "wt":
             rq.append(("req", vi(0x41) + vi(0), False))
-        elif p == "blocked":
-            rq.append(("req", frame(1, blocked_section(role, h)), False))
+        elif p in ("blocked", "bfin"):
+            rq.append(("req", frame(1, blocked_section(role, h)), p == "bfin"))
     ev += rq
     pu = st["push"]
     if pu != "none":
@@ -581,13 +580,14 @@ class Rig:
 
     # -- projection of the real object onto the abstract record (mechanical)
     def _stream_phase(self, sid):
-        if sid in self.fin:
-            return "fin"
         st = self.http._stream.get(sid)
+        HS = self.A["HeadersState"]
+        if st is not None:
+            h = {HS.INITIAL: "init", HS.AFTER_HEADERS: "hdrs", HS.AFTER_TRAILERS: "trl"}[st.headers_recv_state]
+        if sid in self.fin:
+            return h + ".bfin" if st is not None and st.blocked else "fin"
         if st is None:
             return "init"
-        HS = self.A["HeadersState"]
-        h = {HS.INITIAL: "init", HS.AFTER_HEADERS: "hdrs", HS.AFTER_TRAILERS: "trl"}[st.headers_recv_state]
         if st.blocked:
             p = "blocked"
         elif st.frame_type == 0x41 and st.session_id is not None:
